@@ -122,7 +122,11 @@ func TestExploreFP(t *testing.T) {
 		st.Edges += ne
 	}
 	rng := rand.New(rand.NewSource(seed))
-	for _, s := range []*Sys{all[1].WithFastPath(), all[3].WithFastPath()} {
+	// (second-device events only in the tables: see DESIGN.md section 12, two devices behind one circuit)
+	NoAlt = true
+	chainSys := systems()
+	NoAlt = false
+	for _, s := range []*Sys{chainSys[1].WithFastPath(), chainSys[3].WithFastPath()} {
 		evs := s.Events()
 		for c := 0; c < nchains; c++ {
 			var seqv []core.Event
